@@ -81,6 +81,7 @@ structure BondD where
   cons : List (Nat × Nat) := []
   ioP : List Nat := []
   ioC : List (List Nat) := []       -- per consumer, in the order of `cons`
+  sic : Bool := false               -- read with sicv3 (not a transfer): wired, not compared
 deriving Inhabited
 
 structure St where
@@ -247,8 +248,8 @@ def vlogNet (st : St) : List String := Id.run do
       let nw := sget (sts'[b.pp]!) ph.waitsm != 0 && b.ioP.contains ppc'
       let nrecv := b.cons.map fun (c, ip) => sgetL (sts'[c]!) (hws[c]!).irecv ip != 0
       let ngot := (List.range b.cons.length).map fun j => ((got[bi]!)[j]!).length
-      if nv != h'.oVal || nw != h'.waitsm || nrecv != h'.cs.map (·.recv) ||
-         (written[bi]!).length != h'.sent.length || ngot != h'.cs.map (·.got.length) then
+      if !b.sic && (nv != h'.oVal || nw != h'.waitsm || nrecv != h'.cs.map (·.recv) ||
+         (written[bi]!).length != h'.sent.length || ngot != h'.cs.map (·.got.length)) then
         return [s!"VT mismatch clock={t} bond={bi} emitted: v={nv} w={nw} r={joinB nrecv} sent={(written[bi]!).length} got={joinN ngot}" ++
                 s!" | abstract: v={h'.oVal} w={h'.waitsm} r={joinB (h'.cs.map (·.recv))} sent={h'.sent.length} got={joinN (h'.cs.map (·.got.length))}"] ++
                dump written got
@@ -283,6 +284,7 @@ def step (st : St) (line : String) : St × List String :=
       | _ => (0, 0)
     let st' := setBond st (nat! b) fun _ => { pp := pidx pp, op := nat! op, cons, ioC := cons.map fun _ => [] }
     ({ st' with isa := st'.bonds.map fun bd => Hs.Isa.init bd.cons.length }, [])
+  | ["SIC", b] => (setBond st (nat! b) fun bd => { bd with sic := true }, [])
   | "IO" :: b :: who :: rest =>
     let pcs := nats (rest.getD 0 "")
     match who.splitOn ":" with
@@ -322,6 +324,7 @@ def step (st : St) (line : String) : St × List String :=
     -- nets with ends in the environment: the top-level wiring of external ports is C02's subject,
     -- the hardware nets here are built from processors only
     if st.bonds.any fun b => b.pp == envP || b.cons.any (·.1 == envP) then (st, ["RT skipped environment", "VT skipped environment"])
+    else if st.procs.any fun p => p.arch.ops.contains "sicv3" then (st, ["RT skipped sicv3"] ++ vlogNet st)   -- BMV.Rtl has no sicv3
     else (st, rtlNet st ++ vlogNet st)
   | _ => (st, [])
 
